@@ -18,7 +18,7 @@ def rel_to(link_path, target_path):
 class Check:
     id = PROP
     level = "exploration"
-    cases = {"quick": 2500, "thorough": 120000}
+    cases = {"quick": 12000, "thorough": 150000}
     rule = ("case = world laid out as o1/{rt (the root), sib} decorated with 1-4 links (to files, to directories inside / in the sibling / above the root, to ancestors (cycles), to '.', mutual pairs, chains, dangling, self-loops; "
             "targets absolute or relative to the link's directory; link depth 1..4) x root spelling (relative, ./relative, absolute, '.') x cwd (world root, o1, the root itself) x bfs/dfs x with/without `symlinks` x optional depth window "
             "x E (arrival order of every stream - decides which path reaches a real directory first -, DT_UNKNOWN, inode renumbering, hash seed). Termination is a step budget on simulated events. "
